@@ -374,7 +374,8 @@ def check_multi(case):
     want = {(s.upper(), c, r) for s, c, r in set(A) - set(B)}
     if set(cd) != want:
         bad('sub', 'cells', 'areas %s' % area_names(D))
-    elif cd and max(A.values()) == 1 and max(cd.values()) > 1:
+    elif cd and max(cd.values()) > 1:
+        # "without duplicates": also when areas of the left operand overlap one another
         bad('sub', 'cells-dup', 'areas %s' % area_names(D))
     # range operator: bounding rectangle, or an error across sheets
     allr = [tuple(r) for r in case['a'] + case['b']]
@@ -388,9 +389,9 @@ def check_multi(case):
     except Exception as ex:  # noqa
         if sa == sb or type(ex).__name__ != 'InvalidRangeError':
             bad('add', 'raised', '%s: %s' % (type(ex).__name__, ex))
-    # simplify: same cell set, no duplicates
-    if sa == sb:
-        both = build(case['a'] + case['b'], sa, values=False)
+    # simplify: same cell set, no duplicates (the set may span two sheets)
+    if True:
+        both = build(case['a'], sa, values=False) | build(case['b'], sb, values=False)
         Sm = both.simplify()
         csm = area_multiset(Sm)
         if set(csm) != {(s.upper(), c, r) for s, c, r in set(A) | set(B)}:
